@@ -105,6 +105,10 @@ def cases(tier, seed):
     for me in METHODS:
         for runs in (1, 2):
             out.append({"grid": "h411", "jitter": 2, "clamps": [[0, "plane"]], "link": "translation", "method": me, "iterations": 2, "frame": 4, "runs": runs})
+    # bounds of a radial clamp are arc lengths, whatever the radius
+    for me in METHODS:
+        out.append({"grid": "h222", "jitter": 1, "clamps": [[0, "radial_big"]], "link": None, "method": me, "iterations": 2, "frame": 0})
+        out.append({"grid": "s33", "jitter": 1, "clamps": [[0, "radial_big"]], "link": None, "method": me, "iterations": 2, "frame": 0})
     # an optimizer that outlives a change of its mesh / sketch: a vertex without clamp is moved by the user after the
     # optimizer was created (and again between two optimize() calls); it must stay where the user put it
     for me in METHODS:
@@ -230,20 +234,23 @@ def make_clamp(kind_name, pos, fr, k, flat_normal=None):
         n = flat_normal if flat_normal is not None else R @ np.array([0.2, -0.3, 1.0])
         n = n / np.linalg.norm(n)
         return cb.PlaneClamp(pos, pos, n * 2.0), (lambda p: abs(float((p - pos) @ n)))
-    if kind_name == "radial":
+    if kind_name in ("radial", "radial_big"):
         n = flat_normal if flat_normal is not None else R @ np.array([0.0, 0.0, 1.0])
         n = n / np.linalg.norm(n)
         side = np.cross(n, u)
         side = side / np.linalg.norm(side)
-        c = pos + 0.7 * side
-        rad = 0.7
+        # (radial_big: a radius above 1 and narrow bounds that the optimum lies beyond; bounds are arc lengths)
+        rad, reach = (0.7, 0.5) if kind_name == "radial" else (1.6, 0.05)
+        c = pos + rad * side
         h = float((pos - c) @ n)
 
         def dist(p):
             d = p - c
-            return max(abs(float(d @ n) - h), abs(np.linalg.norm(np.cross(d, n)) - rad))
+            r0, r1 = pos - c - h * n, d - float(d @ n) * n
+            turned = math.atan2(float(np.cross(r0, r1) @ n), float(r0 @ r1))
+            return max(abs(float(d @ n) - h), abs(np.linalg.norm(np.cross(d, n)) - rad), max(0.0, abs(turned) * rad - reach))
 
-        return cb.RadialClamp(pos, c, n * 3.0, [-0.5, 0.5]), dist
+        return cb.RadialClamp(pos, c, n * 3.0, [-reach, reach]), dist
     if kind_name == "curve":
         curve = cb.LineCurve(pos - 0.5 * u, pos + 0.3 * u, (0, 1))
         p1 = pos - 0.5 * u
@@ -327,6 +334,32 @@ def run_case(case):
                     w = (c_b - c_a) / np.linalg.norm(c_b - c_a)
                     t = float((p - c_a) @ w)
                     return max(np.linalg.norm((p - c_a) - t * w), max(0.0, -t, t - np.linalg.norm(c_b - c_a)))
+
+                opt.add_clamp(cl)
+                clamped[to_grid[v]] = (cl, dist, cname)
+                continue
+            if cname == "radial_big":
+                # a circle of radius 1.6 through the vertex whose tangent there points to where the vertex wants to go (its
+                # un-jittered position), with bounds (arc lengths) of a third of that way: the optimum is the bound
+                P0 = build(dict(case, jitter=0))[1][v]
+                way = float(np.linalg.norm(P0 - pos))
+                tvec = (P0 - pos) / way
+                if flat_k is not None:
+                    n_ = flat_k / np.linalg.norm(flat_k)
+                    tvec = tvec - n_ * float(tvec @ n_)
+                    tvec /= np.linalg.norm(tvec)
+                else:
+                    n_ = np.cross(tvec, FRAMES[fr][0] @ np.array([0.3, 0.5, 0.81]))
+                    n_ /= np.linalg.norm(n_)
+                rad, reach = 1.6, way / 3
+                c_ = pos + rad * np.cross(tvec, n_)
+                cl = cb.RadialClamp(pos, c_, n_ * 3.0, [-reach, reach])
+
+                def dist(p, c_=c_, n_=n_, rad=rad, reach=reach, p_start=pos.copy()):
+                    d, d0 = p - c_, p_start - c_
+                    r0, r1 = d0 - float(d0 @ n_) * n_, d - float(d @ n_) * n_
+                    turned = math.atan2(float(np.cross(r0, r1) @ n_), float(r0 @ r1))
+                    return max(abs(float((d - d0) @ n_)), abs(np.linalg.norm(r1) - rad), max(0.0, abs(turned) * rad - reach))
 
                 opt.add_clamp(cl)
                 clamped[to_grid[v]] = (cl, dist, cname)
